@@ -1021,6 +1021,9 @@ func gen(c *core.Ctx) error {
 		genVersion(c)
 	}
 	if !aborted {
+		genHS(c)
+	}
+	if !aborted {
 		genSci(c)
 	}
 	c.Note(fmt.Sprintf("deepest call stack seen at a mock-stream ReadFrame: %d frames (oracle bound 64)", maxMsgDepthSeen))
@@ -1054,5 +1057,5 @@ func main() {
 		return
 	}
 	slog.SetDefault(slog.New(slog.NewTextHandler(io.Discard, &slog.HandlerOptions{Level: slog.LevelError + 8})))
-	core.Main("C13", gen, replay)
+	core.MainWithFacts("C13", gen, replay, facts)
 }
